@@ -879,3 +879,49 @@ Corollary history_other_paths_same cs t p : p <> [n_mode] ->
   lookup p (cli_run_all cs t) =
   lookup p (cli_run_all (filter (fun cz => negb (is_mode_cmd cz)) cs) t).
 Proof. exact (history_other_paths cs t t (fun _ _ => eq_refl) p). Qed.
+
+(* ------------------------------------------------------ instants and zones *)
+
+Definition in_instant_range (now : Z) : Prop := (-719528 * 86400 <= now < 2932897 * 86400)%Z.
+
+Lemma instant_day_range now : in_instant_range now -> in_date_range (utc_day now).
+Proof.
+  unfold in_instant_range, in_date_range, utc_day. intros H.
+  split; [apply Z.div_le_lower_bound | apply Z.div_lt_upper_bound]; lia.
+Qed.
+
+(* the local zone of the process does not matter *)
+Theorem run_at_zone_independent c now off1 off2 t :
+  cli_run_at c now off1 t = cli_run_at c now off2 t.
+Proof. reflexivity. Qed.
+
+(* a mode command that writes records the UTC date of the instant, in every
+   zone - also when the local calendar date differs *)
+Theorem mode_cmd_records_utc_date m now off t : in_instant_range now ->
+  fst (cli_read_mode t) <> mode_str m -> mode_is_dir t = false ->
+  snd (cli_run_at (CMode m) now off t) = true /\
+  cli_read_mode (fst (cli_run_at (CMode m) now off t)) = (mode_str m, Some (now / 86400)%Z).
+Proof.
+  intros R NE MD. unfold cli_run_at. cbn [cli_run].
+  exact (mode_cmd_sets m (utc_day now) t (instant_day_range _ R) NE MD).
+Qed.
+
+(* the distinction is real: at the zones of the date line the local date is a
+   different one at some hours *)
+Lemma local_date_differs :
+  local_day 0 (-43200) <> utc_day 0 /\ local_day 36000 50400 <> utc_day 36000.
+Proof. split; vm_compute; discriminate. Qed.
+
+Theorem oracle_accepts_model_at c now off t : in_instant_range now -> root_names_unique t ->
+  dir_diff_ok c (utc_day now) t (fst (cli_run_at c now off t)) (snd (cli_run_at c now off t)) = true.
+Proof. intros R U. exact (oracle_accepts_model c (utc_day now) t (instant_day_range _ R) U). Qed.
+
+(* ------------------------------------------------------ no directory *)
+
+(* without a telemetry directory a mode command succeeds exactly when the mode
+   it asks for is the one in force ("off"); clean and env always do *)
+Theorem nodir_mode_cmd_ok m : cli_run_nodir (CMode m) = true <-> mode_str m = lit_off.
+Proof. destruct m; cbn; split; intros H; try reflexivity; try discriminate. Qed.
+
+Theorem nodir_other_ok : cli_run_nodir CClean = true /\ cli_run_nodir CEnv = true.
+Proof. split; reflexivity. Qed.
